@@ -4,7 +4,7 @@
 
    mode steps: one Step record = one call of a REAL pre-generator plus the photons the REAL
      generator made from its distribution -> Optical!Clauses.
-   mode book:  BConfig / BOffload / BGenerate / BLaunch / BError / BEmptyGenerate / BEnd
+   mode book:  BConfig / BOffload / BGenerate / BLaunch / BError / BEmptyGenerate / BAbort / BEnd
      records of the offload bookkeeping; the trace spec carries the abstract buffers
      (bk.cer, bk.scint: Seq([sid, n]), pending, ninit) and checks every record against the
      Offload / Generate operators of Optical.tla.
@@ -161,6 +161,13 @@ TBError ==
                           !.initerr = @ + (IF Rec.kind = "initcap" THEN 1 ELSE 0), !.recs = @ + 1]
   /\ UNCHANGED <<pc, dev, bk>>
 
+\* a generator of a flush did not return within the draw cap (2e6 words): the run ends
+TBAbort ==
+  /\ pc = "run" /\ Rec.e = "BAbort" /\ bk.on
+  /\ Record({"C20.DrawBound"}, BVar, l)
+  /\ stat' = [stat EXCEPT !.aborted = @ + 1, !.recs = @ + 1]
+  /\ UNCHANGED <<pc, dev, bk>>
+
 TBEnd ==
   /\ pc = "run" /\ Rec.e = "BEnd" /\ bk.on
   /\ bk' = NoRun
@@ -176,7 +183,7 @@ TClose ==
 Next ==
   /\ l <= N /\ l' = l + 1
   /\ \/ TConfig \/ TStep \/ TBConfig \/ TBOffload \/ TBGenerate \/ TBEmptyGenerate
-     \/ TBLaunch \/ TBError \/ TBEnd \/ TClose
+     \/ TBLaunch \/ TBError \/ TBAbort \/ TBEnd \/ TClose
 Spec == Init /\ [][Next]_vars
 
 Accepted ==
